@@ -159,7 +159,6 @@ func (r *coreRun) loadLimits() {
 	}
 }
 
-
 // ---------------------------------------------------------------------------
 // C13: snapshots
 
